@@ -9,6 +9,7 @@ import (
 	"crypto/x509/pkix"
 	"encoding/pem"
 	"math/big"
+	"net"
 	"time"
 )
 
@@ -24,6 +25,35 @@ func GenCert() (certPEM, keyPEM []byte, der []byte) {
 	tmpl := &x509.Certificate{
 		Subject:               pkix.Name{CommonName: "localhost", Organization: []string{"HashiCorp"}},
 		DNSNames:              []string{"localhost"},
+		ExtKeyUsage:           []x509.ExtKeyUsage{x509.ExtKeyUsageClientAuth, x509.ExtKeyUsageServerAuth},
+		KeyUsage:              x509.KeyUsageDigitalSignature | x509.KeyUsageKeyEncipherment | x509.KeyUsageKeyAgreement | x509.KeyUsageCertSign,
+		BasicConstraintsValid: true,
+		SerialNumber:          sn,
+		NotBefore:             time.Now().Add(-time.Minute),
+		NotAfter:              time.Now().Add(24 * time.Hour),
+		IsCA:                  true,
+	}
+	der, err = x509.CreateCertificate(rand.Reader, tmpl, tmpl, key.Public(), key)
+	if err != nil {
+		panic(err)
+	}
+	kb, _ := x509.MarshalECPrivateKey(key)
+	certPEM = pem.EncodeToMemory(&pem.Block{Type: "CERTIFICATE", Bytes: der})
+	keyPEM = pem.EncodeToMemory(&pem.Block{Type: "EC PRIVATE KEY", Bytes: kb})
+	return
+}
+
+// GenCertIPOnly is GenCert with an IP SAN (127.0.0.1) and no DNS name: the shape of certificate a
+// plugin that is not built on go-plugin may announce; it does not verify for the name "localhost".
+func GenCertIPOnly() (certPEM, keyPEM []byte, der []byte) {
+	key, err := ecdsa.GenerateKey(elliptic.P256(), rand.Reader)
+	if err != nil {
+		panic(err)
+	}
+	sn, _ := rand.Int(rand.Reader, new(big.Int).Lsh(big.NewInt(1), 120))
+	tmpl := &x509.Certificate{
+		Subject:               pkix.Name{CommonName: "plugin", Organization: []string{"HashiCorp"}},
+		IPAddresses:           []net.IP{net.IPv4(127, 0, 0, 1)},
 		ExtKeyUsage:           []x509.ExtKeyUsage{x509.ExtKeyUsageClientAuth, x509.ExtKeyUsageServerAuth},
 		KeyUsage:              x509.KeyUsageDigitalSignature | x509.KeyUsageKeyEncipherment | x509.KeyUsageKeyAgreement | x509.KeyUsageCertSign,
 		BasicConstraintsValid: true,
